@@ -303,6 +303,12 @@ class _LoaderNP(object):
                 IO.calls_total["genfromtxt"] = IO.calls_total.get("genfromtxt", 0) + 1
                 arm = IO.armed
                 if arm and arm["kind"] == "K11" and k.get("names"):
+                    if arm.get("when") == "after":
+                        # numpy 1.19 raised while *converting*, i.e. after it had read the whole input: consume it first
+                        try:
+                            real.genfromtxt(*a, **k)
+                        except Exception:  # noqa
+                            pass
                     IO.fired = "K11"
                     IO.armed = arm.get("then")  # a second fault may be queued behind the fallback
                     IO.fallback_used = True
